@@ -1191,7 +1191,11 @@ func genFileList(r *core.Rand, i int) obj {
 			continue
 		}
 		sz := r.Intn(3000)
-		if r.Chance(1, 4) {
+		if r.Chance(1, 5) {
+			// a partial upload: on disk "<name>.incomplete", listed under its final name
+			os.WriteFile(filepath.Join(dir, name+".incomplete"), r.Bytes(sz), 0644)
+			want[name] = sz
+		} else if r.Chance(1, 4) {
 			os.MkdirAll(filepath.Join(dir, name), 0755)
 			want[name] = -1
 		} else {
